@@ -5598,7 +5598,7 @@ SetpointCommandShortWithCP56Time2a_getTimestamp(SetpointCommandShortWithCP56Time
 static bool
 Bitstring32Command_encode(Bitstring32Command self, Frame frame, CS101_AppLayerParameters parameters, bool isSequence)
 {
-    int size = isSequence ? 5 : (parameters->sizeOfIOA + 5);
+    int size = isSequence ? 4 : (parameters->sizeOfIOA + 4);
 
     if (Frame_getSpaceLeft(frame) < size)
         return false;
@@ -5707,7 +5707,7 @@ Bitstring32Command_getFromBuffer(Bitstring32Command self, CS101_AppLayerParamete
 static bool
 Bitstring32CommandWithCP56Time2a_encode(Bitstring32CommandWithCP56Time2a self, Frame frame, CS101_AppLayerParameters parameters, bool isSequence)
 {
-    int size = isSequence ? 12 : (parameters->sizeOfIOA + 12);
+    int size = isSequence ? 11 : (parameters->sizeOfIOA + 11);
 
     if (Frame_getSpaceLeft(frame) < size)
         return false;
